@@ -588,7 +588,13 @@ def c02_zone_cursor(ctx):
     c05_1(ctx)
 
 
-RULES = [c02_predefined, c02_1, c02_2, c02_3, c02_4, c02_5, c02_6, c02_macro_sizes, c02_zone_of_line, c02_state, c02_file_state, c02_label_names, c02_zone_cursor]
+def c02_origin(ctx):
+    """"Unless an origin directive intervenes" - to the address the directive denotes: absolute, or relative to the zone written on it (C05.4)."""
+    from rules.c05 import c05_4
+    c05_4(ctx)
+
+
+RULES = [c02_origin, c02_predefined, c02_1, c02_2, c02_3, c02_4, c02_5, c02_6, c02_macro_sizes, c02_zone_of_line, c02_state, c02_file_state, c02_label_names, c02_zone_cursor]
 
 _E = 'assembler/engine.py'
 _FD = 'assembler/line_object/directive_line/fill_data.py'
